@@ -1018,8 +1018,14 @@ def unread_helpers(prog: Program, f: FuncInfo) -> list[str]:
     return sorted(set(out))
 
 
-def require_readable(prog: Program, *funcs: FuncInfo) -> None:
+def require_readable(prog: Program, *funcs: FuncInfo, closures: bool = True) -> None:
     for f in funcs:
+        if closures:
+            inner = [x for x in ast.walk(f.node) if isinstance(x, (ast.FunctionDef, ast.AsyncFunctionDef, ast.Lambda)) and x is not f.node]
+            if inner:
+                nm = getattr(inner[0], "name", "<lambda>")
+                raise AnalysisError(f"{f.loc(inner[0])}: {f.qualname.split(':')[1]} keeps part of its logic in the local function `{nm}` (used as a value, so it could not be read in place); "
+                                    "the rule cannot be decided")
         hidden = unread_helpers(prog, f)
         if hidden:
             raise AnalysisError(f"{f.loc(f.node)}: {f.qualname.split(':')[1]} delegates to the new helper(s) {hidden[:4]}, which could not be read in place; the rule cannot be decided")
